@@ -83,17 +83,34 @@ func totalAlloc() uint64 {
 
 func allocLimit(n int) uint64 { return 64<<10 + 1024*uint64(n) }
 
+// wdSeq is bumped at the start of every case: the watchdog only trusts a sample taken while one and
+// the same case was in flight (cases last microseconds, the watchdog samples every 10 ms).
+var wdSeq uint64
+
 func startWatchdog() {
 	go func() {
 		for {
 			time.Sleep(10 * time.Millisecond)
-			if atomic.LoadInt32(&wdActive) == 1 {
-				if a := allocBytesWD(); a-atomic.LoadUint64(&wdStart) > 64*atomic.LoadUint64(&wdLimit) {
-					info, _ := wdInfo.Load().(map[string]interface{})
-					json.NewEncoder(os.Stdout).Encode(map[string]interface{}{"t": "viol", "space": info["space"], "idx": info["idx"],
-						"sig": fmt.Sprintf("alloc-runaway:%v", info["sig"]), "msg": fmt.Sprintf("decode still running after allocating %d bytes for a %v-octet datagram (64x the bound); aborted", a-wdStart, info["len"]), "case": info})
-					os.Exit(7)
+			if atomic.LoadInt32(&wdActive) != 1 {
+				continue
+			}
+			seq := atomic.LoadUint64(&wdSeq)
+			start := atomic.LoadUint64(&wdStart)
+			limit := atomic.LoadUint64(&wdLimit)
+			a := allocBytesWD()
+			if atomic.LoadUint64(&wdSeq) != seq || atomic.LoadInt32(&wdActive) != 1 || a <= start {
+				continue
+			}
+			if a-start > 64*limit {
+				// confirm on a second look that the SAME case is still running
+				time.Sleep(20 * time.Millisecond)
+				if atomic.LoadUint64(&wdSeq) != seq || atomic.LoadInt32(&wdActive) != 1 {
+					continue
 				}
+				info, _ := wdInfo.Load().(map[string]interface{})
+				json.NewEncoder(os.Stdout).Encode(map[string]interface{}{"t": "viol", "space": info["space"], "idx": info["idx"],
+					"sig": fmt.Sprintf("alloc-runaway:%v", info["sig"]), "msg": fmt.Sprintf("decode still running after allocating %d bytes for a %v-octet datagram (64x the bound); aborted", a-start, info["len"]), "case": info})
+				os.Exit(7)
 			}
 		}
 	}()
@@ -173,6 +190,7 @@ func runDgram(c *mck.Ctx, d *dgram) {
 	var a0 uint64
 	if *measure {
 		wdInfo.Store(map[string]interface{}{"space": c.Space, "idx": c.Idx, "class": d.class, "sig": d.sigOr(), "len": len(wire), "case": d.describe()})
+		atomic.AddUint64(&wdSeq, 1)
 		atomic.StoreUint64(&wdStart, allocBytes())
 		a0 = totalAlloc()
 		atomic.StoreUint64(&wdLimit, allocLimit(len(wire)))
